@@ -15,11 +15,37 @@ def fq(a):
     return np.rint(np.clip(a, -1.3e5, 1.3e5) * S).astype(int).tolist()
 
 
-def fit_kde(D, w, G, cell, s, Q, fp, fs):
+def fit_kde(D, w, G, cell, s, Q, fp, fs, reach=None):
     from skmatter.neighbors import SparseKDE
     mp_ = {"cell_length": np.asarray(cell, float) / s} if len(cell) else None
     kde = SparseKDE(np.asarray(D, float) / s, np.asarray(w, float).copy(), metric_params=mp_, fpoints=fp, fspread=fs)
-    kde.fit(np.asarray(G, float) / s)
+    Gf = np.asarray(G, float) / s
+    if reach is None:
+        kde.fit(Gf)
+    else:
+        # observe the localised weights used for each grid point's covariance (last call per grid point): the share of
+        # the OTHER grid points decides the property's proviso "the localisation reaches at least one other grid point"
+        import skmatter.neighbors._sparsekde as M
+        orig = getattr(M, "_local_population", None)
+        last = {}
+        if orig is not None:
+            def lp(cell_, gj, gi, gw, s2):
+                out = orig(cell_, gj, gi, gw, s2)
+                try:
+                    hit = np.flatnonzero(np.all(np.asarray(gj) == np.asarray(gi), axis=1))
+                    if len(hit) == 1 and np.isfinite(out[1]) and out[1] > 0:
+                        wl = np.asarray(out[0], float)
+                        last[int(hit[0])] = float((wl.sum() - wl[hit[0]]) / wl.sum())
+                except Exception:
+                    pass
+                return out
+            M._local_population = lp
+        try:
+            kde.fit(Gf)
+        finally:
+            if orig is not None:
+                M._local_population = orig
+            reach.extend(int(round(last[i] * S)) for i in sorted(last))     # all grid points, or those up to the one at which the fit raised
     ld = kde.score_samples(np.asarray(Q, float) / s)
     return kde, ld
 
@@ -31,12 +57,16 @@ def case(cid, rng):
     s = [1, 2, 4][int(rng.integers(3))]
     periodic = rng.random() < 0.45
     cell = list(int(v) for v in rng.integers(8, 25, size=dim)) if periodic else []
-    kind = ["multimodal", "aniso", "degenerate", "uniform"][int(rng.integers(4))]
+    kind = ["multimodal", "aniso", "degenerate", "uniform", "singular", "multimodal", "uniform"][int(rng.integers(7))]
     if kind == "multimodal":
         cen = rng.integers(2, 20, size=(3, dim))
         D = cen[rng.integers(3, size=nd)] + rng.integers(-3, 4, size=(nd, dim))
     elif kind == "aniso":
         D = rng.integers(0, 22, size=(nd, dim)) // np.array([1, 4, 8][:dim]) + 3
+    elif kind == "singular" and dim >= 2:
+        # exactly singular covariances: a constant coordinate, or one coordinate an exact multiple of another
+        D = rng.integers(0, 22, size=(nd, dim))
+        D[:, -1] = 5 if rng.random() < 0.5 else 2 * D[:, 0]
     elif kind == "degenerate" and dim >= 2:
         D = rng.integers(0, 22, size=(nd, dim)); D[:, -1] = D[:, 0] // 2 + 4
     else:
@@ -58,12 +88,12 @@ def case(cid, rng):
     fp, fs = (0.5, -1.0) if rng.random() < 0.7 else (-1.0, float(rng.choice([0.3, 0.6])))
     fp = float(rng.choice([0.15, 0.3, 0.5])) if fs < 0 else fp
     c = {"id": cid, "kind": kind, "dim": dim, "D": D.astype(int).tolist(), "w": [int(v) for v in w], "G": G.astype(int).tolist(), "cell": cell, "scale": s,
-         "Q": Q.tolist(), "fp": ([int(round(fp * 20)), 20] if fp > 0 else []), "fpoints": fp, "fspread": fs, "raised": False, "errclass": "", "labels": [], "gw": [], "H": [], "finite": True, "ld": [], "score": 0, "routes": []}
+         "Q": Q.tolist(), "fp": ([int(round(fp * 20)), 20] if fp > 0 else []), "fpoints": fp, "fspread": fs, "raised": False, "errclass": "", "labels": [], "gw": [], "H": [], "finite": True, "ld": [], "score": 0, "routes": [], "reach": []}
     W = int(w.sum())
     try:
         with warnings.catch_warnings():
             warnings.simplefilter("ignore")
-            kde, ld = fit_kde(D, w, G, cell, s, Q, fp, fs)
+            kde, ld = fit_kde(D, w, G, cell, s, Q, fp, fs, reach=c["reach"])
             H = np.asarray(kde.bandwidth_, float)
             c["finite"] = bool(np.all(np.isfinite(H)) and np.all(np.isfinite(ld)))
             if not c["finite"]:
@@ -135,7 +165,7 @@ def gen(args):
     return [case("w%d-%d" % (wid, t), rng) for t in range(n)]
 
 
-KEYS = ("id", "D", "w", "G", "cell", "fp", "raised", "errclass", "labels", "gw", "H", "finite", "ld", "score", "routes")
+KEYS = ("id", "D", "w", "G", "cell", "fp", "raised", "errclass", "labels", "gw", "H", "finite", "ld", "score", "routes", "reach")
 
 
 def strip(c):
